@@ -54,11 +54,11 @@ pub fn pick_n(sel: u8) -> usize {
     T[(sel as usize * T.len()) >> 8]
 }
 
-/// capacity in {2..24, 64, 256}
+/// capacity in {2..24, 64, 256, 700}
 pub fn pick_cap(sel: u8) -> usize {
     const T: [usize; 32] = [
         2, 3, 4, 4, 5, 5, 6, 6, 7, 8, 8, 9, 10, 10, 11, 12, 12, 13, 14, 15, 16, 17, 18, 19, 20, 21,
-        22, 23, 24, 64, 64, 256,
+        22, 23, 24, 64, 700, 256,
     ];
     T[(sel as usize * T.len()) >> 8]
 }
@@ -229,7 +229,7 @@ fn small_tree(m: &Model, a: u16, b: u16, c: u16, d: u16) -> Option<Call> {
         for i in 0..kids.min(m.n) {
             nodes.push(TNode { id: i + 1, parent: Some(0), label: Some(Lab::Alpha(20 + i as u64)), data: if (c >> (i + 1)) & 1 == 1 { Some(vec![i as u8; 2]) } else { None }, read: false });
         }
-        return Some(Call::Merge { h: TreeSpec { cap: 12, nodes, extras: vec![] }, left });
+        return Some(Call::Merge { h: TreeSpec { cap: 12, nodes, extras: vec![], pairs_first: false }, left });
     }
     let labels = [Lab::Alpha(0), Lab::Str("foo".into()), Lab::Greek('x'), Lab::Str("bar".into())];
     let want = 1 + (a as usize & 7) % 5;
@@ -272,7 +272,7 @@ fn small_tree(m: &Model, a: u16, b: u16, c: u16, d: u16) -> Option<Call> {
             break;
         }
     }
-    Some(Call::Merge { h: TreeSpec { cap: hcap, nodes, extras: vec![] }, left })
+    Some(Call::Merge { h: TreeSpec { cap: hcap, nodes, extras: vec![], pairs_first: false }, left })
 }
 
 /// Resolve one op seed against the model. None = no valid candidate (skip).
@@ -472,7 +472,7 @@ pub fn resolve(seed: &OpSeed, m: &Model, profile: Profile) -> Option<Call> {
             // labels whose text parses back to themselves, without characters the script grammar reserves
             let ls: Vec<Lab> = labels
                 .iter()
-                .filter(|l| l.parse_roundtrips() && !l.text().contains([',', ')', '(', ';', '#']))
+                .filter(|l| l.parse_roundtrips() && !l.text().contains([',', ')', '(', ';', '#']) && !l.text().chars().any(char::is_whitespace))
                 .cloned()
                 .collect();
             Call::ScriptNew { parent: p, l: ls[idx(b, ls.len())].clone() }
